@@ -467,7 +467,8 @@ func TestVerifC04Tok(t *testing.T) {
 		a, b, c := keys[0], keys[1], keys[2]
 		weak, nocomment, ghost, opt := vNewKey("rsa1024", "weak@verif"), vNewKey("ed", "nobody@verif"), vNewKey("ed", "ghost@verif"), vNewKey("p256", "opt@verif")
 		ents := []ent{
-			{line: "# authorized keys of the node", blank: true},
+			{line: "#####", blank: true},
+			{line: "  # ", blank: true},
 			{line: ak(a, "alice@verif"), key: a, iss: "alice@verif", class: "valid", comment: "alice@verif"},
 			{line: "", blank: true},
 			{line: "   " + ak(b, "bob@verif") + "   # added by ops", key: b, iss: "bob@verif", class: "valid", comment: "bob@verif"},
@@ -496,8 +497,9 @@ func TestVerifC04Tok(t *testing.T) {
 			desc = append(desc, d)
 		}
 		m2, err := New(nil, aud, []byte(strings.Join(lines, "\n")+"\n"))
-		if err != nil {
-			t.Fatalf("messy authorized_keys: %v", err)
+		if err != nil { // the file is well-formed: a parser that chokes on it shows up as a correspondence difference
+			out.emit(map[string]interface{}{"op": "akeys", "lines": desc}, "parse-error")
+			return
 		}
 		impl2 := m2.(*middlewareImpl)
 		var names []string
@@ -516,11 +518,17 @@ func TestVerifC04Tok(t *testing.T) {
 			}
 			k := e.key
 			hdr := map[string]interface{}{"typ": "JWT", "kid": k.kid}
-			for _, issVariant := range []string{e.iss, "alice@verif"} {
+			for _, issVariant := range []string{e.iss, "alice@verif", ""} {
 				bb := vBase{hdr: hdr, payload: vJSON(vAPIClaims(issVariant, aud, now)), signer: k, other: a, attacker: attacker}
 				tok := vCompact(bb.sigFor(k), bb.payload)
 				class := e.class
-				if issVariant != e.iss {
+				if issVariant == "" { // the holder of a key without user name would claim the empty issuer
+					if strings.HasPrefix(e.class, "key-") {
+						class = e.class + "+iss-empty"
+					} else {
+						class = "iss-not-key-owner"
+					}
+				} else if issVariant != e.iss {
 					class = e.class + "+iss-alice"
 					if e.class == "valid" || e.class == "dup-key-second-name" {
 						if e.key == a { // alice's key (also the duplicate line): alice@verif is its (first) user name
